@@ -454,9 +454,11 @@ class PathState(object):
         parts = list(g.children()) if (z3.is_and(g) and not self.guards) else [g]
         ob = None
         backends = set()
+        grid = 0
         for part in parts:
             o1 = self._prove_one(name, part, detail, kind)
             backends.add(o1.backend)
+            grid += o1.grid or 0
             if o1.status != "discharged":
                 ob = o1
                 break
@@ -464,6 +466,7 @@ class PathState(object):
             ob = Obligation(name, "discharged", detail, kind=kind)
             bs = sorted(b for b in backends if b)
             ob.backend = bs[0] if len(bs) == 1 else "+".join(bs)
+            ob.grid = grid
         ob.seconds = time.time() - t0
         ob.path = list(self.trace[: self.pos])
         self.obligations.append(ob)
@@ -523,6 +526,16 @@ class PathState(object):
             return None
         _, cut, points, count, depth, exact = r
         spurious = 0
+        # first try to realise a violating grid point by exact finite-domain evaluation
+        for pt in points[:6]:
+            try:
+                asg = fd.realize(pt, n, self.fd_cons)
+            except (fd.TooBig, MemoryError):
+                asg = None
+            if asg is not None and not self.z3_only:
+                ob = Obligation(name, "refuted", detail, model=self.engine.model_from_assignment(asg), kind=kind)
+                ob.backend = "fd-eval(exact point)"
+                return ob
         for pt in points:
             lits = [c.guards()[i] for c, i in pt.items()]
             res, model, _ = self._check(z3.Not(g), *lits)
@@ -752,6 +765,21 @@ class Engine(object):
         return c
 
     # -- model snapshots ----------------------------------------------------------------------
+    def model_from_assignment(self, asg):
+        """counter-model read-out from an assignment of finite-domain base variables"""
+        subs = []
+        for var, i in asg.items():
+            for j, g in enumerate(var.guards()):
+                subs.append((g, z3.BoolVal(j == i)))
+        out = {}
+        for label, term in self.model_terms:
+            try:
+                v = z3.simplify(z3.substitute(term, *subs))
+                out[label] = S.decode_model_value(v)
+            except Exception as e:  # noqa
+                out[label] = "<eval failed: %s>" % e
+        return out
+
     def snapshot_model(self, st, model):
         out = {}
         for label, term in self.model_terms:
